@@ -69,6 +69,15 @@ func c15Check(in c15Input) string {
 			return ""
 		}
 		route = []Handler{func(c Context, u *c15Unmapped) { _ = u }}
+	case "hook":
+		// a function registered with Before panics when the handler's return value is about to be written
+		if in.Value != "str" && in.Value != "err" {
+			return ""
+		}
+		route = []Handler{func(c Context) string {
+			c.ResponseWriter().Before(func(ResponseWriter) { raise() })
+			return "body"
+		}}
 	case "deep":
 		route = []Handler{func(c Context) { c.Next() }, func(c Context) { c.Next() }, func(c Context) { raise() }}
 	}
@@ -128,7 +137,7 @@ func TestVerifReplayC15(t *testing.T) {
 search:
 	for _, env := range []string{string(EnvTypeProd), string(EnvTypeTest), string(EnvTypeDev)} {
 		for _, v := range []string{"str", "err", "struct", "runtime", "abort"} {
-			for _, site := range []string{"before", "after-status", "after-body", "dependency", "deep"} {
+			for _, site := range []string{"before", "after-status", "after-body", "dependency", "deep", "hook"} {
 				in := c15Input{Env: env, Value: v, Site: site}
 				count++
 				if what := c15Check(in); what != "" {
